@@ -27,27 +27,30 @@ def _params(tier):
     if tier == "quick":
         for i, n in enumerate(lens_q):
             name, w = wins_q[i % 4]
-            out.append(dict(n=n, hash_name=HASHES[i % 4], win=w, layout=("envelope", "trailing")[i % 2], flavour=("sync", "async")[(i // 2) % 2], sid=e2e.SIDS[i % 5]))
+            out.append(dict(n=n, hash_name=HASHES[i % 4], win=w, layout=("envelope", "trailing")[i % 2], flavour=("sync", "async")[(i // 2) % 2], sid=e2e.SIDS[i % 5],
+                            same_cache=(i % 4 == 3 or i % 3 == 0)))
         return out
     lens_t = lens_q + [65519, 65520, 65535, 65536, 70000]
     for i, n in enumerate(lens_t):
         for j, (name, w) in enumerate(wins_q):
-            out.append(dict(n=n, hash_name=HASHES[(i + j) % 4], win=w, layout=("envelope", "trailing")[(i + j) % 2], flavour=("sync", "async")[(i // 2 + j) % 2], sid=e2e.SIDS[(i + j) % 5]))
+            out.append(dict(n=n, hash_name=HASHES[(i + j) % 4], win=w, layout=("envelope", "trailing")[(i + j) % 2], flavour=("sync", "async")[(i // 2 + j) % 2], sid=e2e.SIDS[(i + j) % 5],
+                            same_cache=bool((i + j) % 2)))
     # wide windows: many L1/L2 values (every value of L2 and several L1 boundaries), other epochs
     for l0 in (270, 361, 430, 564):
         for h in HASHES:
-            out.append(dict(n=5, hash_name=h, win=(l0, 3, 0, 40 * b, 40 * b), layout="envelope", flavour="sync", sid=e2e.SIDS[1]))
-    out.append(dict(n=5, hash_name="SHA256", win=(361, 0, 0, 2, 1023 * b), layout="trailing", flavour="sync", sid=e2e.SIDS[0]))
+            out.append(dict(n=5, hash_name=h, win=(l0, 3, 0, 40 * b, 40 * b), layout="envelope", flavour="sync", sid=e2e.SIDS[1], same_cache=(l0 % 2 == 0)))
+    out.append(dict(n=5, hash_name="SHA256", win=(361, 0, 0, 2, 1023 * b), layout="trailing", flavour="sync", sid=e2e.SIDS[0], same_cache=True))
+    out.append(dict(n=5, hash_name="SHA1", win=(361, 0, 0, 2, 1023 * b), layout="envelope", flavour="async", sid=e2e.SIDS[2], same_cache=False))
     return out
 
 
 @harness(P, params=_params, max_steps=1500000,
          bounds="nonce mode; plaintext lengths {0,1,15,16,17,31,32,33,127,128,129,255,256,257} (+{65519,65520,65535,65536,70000} thorough) with symbolic content (first/last 17 octets "
          "above 48 bytes); 4 KDF hashes; 64 symbolic root-key bytes; clock symbolic inside windows that contain an L2, an L1 and an L0 boundary (+- 2 ticks) and one inside an interval "
-         "(thorough: 80 h wide windows in 4 epochs and one whole L0 period = every (L1,L2)); both blob layouts; sync and async API; 5 SID shapes (1..15 sub-authorities, 0 and 2^32-1)",
+         "(thorough: 80 h wide windows in 4 epochs and one whole L0 period = every (L1,L2)); both blob layouts; sync and async API; decryption through the same KeyCache object or through a fresh one loaded with the same root key; 5 SID shapes (1..15 sub-authorities, 0 and 2^32-1)",
          outside="other plaintext lengths; clock instants outside the windows (C09 + C02 cover the mapping and the derivation for every instant/position); SIDs not listed; public-key "
          "mode (roundtrip_public_key); bit-level crypto", must_reach=("unprotect(protect(x)) == x",))
-def roundtrip(c, n, hash_name, win, layout, flavour, sid):
+def roundtrip(c, n, hash_name, win, layout, flavour, sid, same_cache):
     lo, hi = e2e.window(*win)
     w = e2e.new_world(c, lo, hi)
     pt = e2e.plaintext(c, n)
@@ -59,8 +62,8 @@ def roundtrip(c, n, hash_name, win, layout, flavour, sid):
         blob = c.call_async(dpapi_ng.async_ncrypt_protect_secret, pt, sid, root_key_identifier=e2e.RK, cache=cache)
     if layout == "trailing":
         blob = c.call(c.call(_blob.DPAPINGBlob.unpack, blob).pack, blob_in_envelope=False)
-    # a different process decrypts: fresh cache, same root key
-    cache2 = e2e.loaded_cache(c, root, hash_name)
+    # either the same KeyCache object decrypts, or a different process does (fresh cache, same root key)
+    cache2 = cache if same_cache else e2e.loaded_cache(c, root, hash_name)
     if flavour == "sync":
         out = c.call(dpapi_ng.ncrypt_unprotect_secret, blob, cache=cache2)
     else:
